@@ -4,9 +4,9 @@
 From Coq Require Import Reals QArith List.
 From Coquelicot Require Import Coquelicot.
 From OV.base Require Import Num.
-From OV.gen Require Import Gen_ScalarRootFind.
-From OV.model Require Import M_C17.
-From OV.proofs Require Import L_C17.
+From OV.gen Require Import Gen_ScalarRootFind Gen_C17FindRoot.
+From OV.model Require Import M_C17 M_C17d.
+From OV.proofs Require Import L_C17 L_C17d L_C17f.
 Import ListNotations.
 Local Open Scope R_scope.
 
@@ -122,6 +122,102 @@ Theorem C17_ift : forall (F : R -> R -> R) (x : R -> R) (p0 a b dx : R),
   dx = (- b) / a /\ (fun t : R => a * t) ((- b) / (fun t : R => a * t) 1) = - b.
 Proof. exact ift_with_tangent_solve. Qed.
 
+(* ---- derivative clause over the GENERATED custom_root arguments (gen/Gen_C17FindRoot.v, re-extracted from find_root on every
+   run by tools/vlib/extract_c17.py, whatever syntactic form the tangent solve has) ----
+   the tangent solve divides by the slope for EVERY non-zero slope, however small (any threshold on |s| breaks this proof; seed
+   C17-5), so it inverts every linear map with non-zero slope and is invariant under a rescaling of the residual *)
+Theorem C17_gen_tangent_solve : forall s y : R, s <> 0 -> Gen_C17FindRoot.tangent_solve (T:=R) (fun dx => s * dx) y = y / s.
+Proof. exact gen_tangent_solve. Qed.
+Theorem C17_gen_tangent_solve_inverts : forall (g : R -> R) (y : R), (forall t, g t = g 1 * t) -> g 1 <> 0 ->
+  g (Gen_C17FindRoot.tangent_solve (T:=R) g y) = y /\ Gen_C17FindRoot.tangent_solve (T:=R) g y = y / g 1.
+Proof. exact gen_tangent_solve_inverts. Qed.
+Theorem C17_gen_tangent_solve_scale_invariant : forall c s y : R, c <> 0 -> s <> 0 ->
+  Gen_C17FindRoot.tangent_solve (T:=R) (fun dx => (c * s) * dx) (c * y) = Gen_C17FindRoot.tangent_solve (T:=R) (fun dx => s * dx) y.
+Proof. exact gen_tangent_solve_scale_invariant. Qed.
+(* custom_root's forward rule (model/M_C17d.v:root_jvp = - tangent_solve (t |-> fx t) (fp dp)) gives -fp dp / fx *)
+Theorem C17_root_jvp_value : forall fx fp dp : R, fx <> 0 -> root_jvp (T:=R) fx fp dp = - (fp * dp) / fx.
+Proof. exact root_jvp_value. Qed.
+(* find_root returns custom_root's result untouched (no clamp / rounding of the root: seed C17-2), so its first output is
+   differentiable in the returned solution with derivative 1 at EVERY point, bracket ends included; and the custom_root call
+   is wired to find_root's own f, x0 and rtsafe_(F, X0, bracket, settings) with has_aux=True (flags read off the AST) *)
+Theorem C17_find_root_returns_custom_root : forall (f : R -> R) (x aux x0 b0 b1 mi xt rt : R),
+  find_root_post (T:=R) f x aux x0 b0 b1 mi xt rt = (x, aux).
+Proof. exact gen_find_root_post_id. Qed.
+Theorem C17_custom_root_wiring : custom_root_wiring_ok = true.
+Proof. exact wiring_ok. Qed.
+(* the derivative of find_root's output in a parameter IS what custom_root's rule computes, and that is the IFT value *)
+Theorem C17_find_root_derivative : forall (F : R -> R -> R) (root : R -> R) (p0 a b dx : R) (f : R -> R) (aux x0 b0 b1 mi xt rt : R),
+  locally p0 (fun p => F (root p) p = 0) ->
+  filterdiff (fun xp : R * R => F (fst xp) (snd xp)) (locally (root p0, p0)) (fun h => a * fst h + b * snd h) ->
+  is_derive root p0 dx -> a <> 0 ->
+  is_derive (fun p => fst (find_root_post (T:=R) f (root p) aux x0 b0 b1 mi xt rt)) p0 (root_jvp (T:=R) a b 1) /\
+  root_jvp (T:=R) a b 1 = - b / a.
+Proof. exact find_root_derivative. Qed.
+(* end-point roots (goal: derivative clause at a root that is a bracket end): the model returns the end itself with zero
+   iterations, find_root's post-processing is the identity there (derivative 1, not the 0 / one-sided value of a clamp) and
+   custom_root's rule evaluated at the end gives the implicit-function value -f_p / f_x *)
+Theorem C17_endpoint_root_derivative : forall (f df fp : R -> R) x_tol r_tol n x0 b0 b1 x cv it Fv dxv w (aux : R),
+  rtsafe f df x0 b0 b1 n x_tol r_tol = Res x cv it Fv dxv w ->
+  (Rabs (f b1) <= r_tol \/ (Rabs (f b0) <= r_tol /\ r_tol < Rabs (f b1))) ->
+  exists v, x = Some v /\ it = 0 /\ cv = true /\
+    ((Rabs (f b1) <= r_tol /\ v = b1) \/ (r_tol < Rabs (f b1) /\ v = b0)) /\
+    fst (find_root_post (T:=R) f v aux x0 b0 b1 (INR n) x_tol r_tol) = v /\
+    is_derive (fun u => fst (find_root_post (T:=R) f u aux x0 b0 b1 (INR n) x_tol r_tol)) v 1 /\
+    (df v <> 0 -> root_jvp (T:=R) (df v) (fp v) 1 = - fp v / df v).
+Proof. exact endpoint_root_derivative. Qed.
+Example C17_tiny_slope_nonvacuous :
+  Gen_C17FindRoot.tangent_solve (T:=R) (fun dx => (1 / 100000000000000) * dx) (1 / 100000000000000) = 1.
+Proof. exact tiny_slope_nonvacuous. Qed.
+
+(* ---- binary64 (the PrimFloat instance of the same model, the one executed bit-for-bit against rtsafe_ run op by op) ----
+   for ARBITRARY float oracles f, f' (f' may return NaN) and any settings, by the IEEE comparison laws of FloatAxioms alone:
+   one loop body keeps (f xl < 0) = true, (f xh < 0) = false, F = f root, and its iterate is one of the new bracket ends; *)
+Theorem C17_binary64_body_keeps_sign_invariant : forall (f df : PrimFloat.float -> PrimFloat.float) (xt rt : PrimFloat.float) (c : @carry PrimFloat.float),
+  Inv64 f c -> let c' := body (fun x => (f x, df x)) xt rt c in Inv64 f c' /\ (c_root c' = c_xl c' \/ c_root c' = c_xh c').
+Proof. exact body64_inv. Qed.
+(* the code's sign test means a strict sign change in binary64; *)
+Theorem C17_binary64_sign_test : forall fl fh : PrimFloat.float,
+  @nltb PrimFloat.float NumF (nmul (nsign fl) (nsign fh)) (@nzero PrimFloat.float NumF) = true ->
+  (PrimFloat.ltb fl nzero = true /\ PrimFloat.ltb fh nzero = false /\ PrimFloat.ltb nzero fh = true) \/
+  (PrimFloat.ltb fl nzero = false /\ PrimFloat.ltb nzero fl = true /\ PrimFloat.ltb fh nzero = true).
+Proof. exact sign_test_binary64. Qed.
+(* hence a non-NaN result of a bracketed run is converged, carries the residual f(result), and is an end of a pair of evaluated
+   points with f xl < 0 and not f xh < 0 (0 <= f xh when f xh is not NaN), or the untouched start value *)
+Theorem C17_binary64_sign_invariant : forall (f df : PrimFloat.float -> PrimFloat.float) (x0 b0 b1 : PrimFloat.float) (n : nat)
+    (xt rt : PrimFloat.float) v cv it Fv dxv w,
+  @nltb PrimFloat.float NumF (nmul (nsign (f b0)) (nsign (f b1))) (@nzero PrimFloat.float NumF) = true ->
+  @rtsafe PrimFloat.float NumF f df x0 b0 b1 n xt rt = Res (Some v) cv it Fv dxv w ->
+  Fv = f v /\ cv = true /\ w = Converged /\
+  exists xl xh, PrimFloat.ltb (f xl) nzero = true /\ PrimFloat.ltb (f xh) nzero = false /\
+                (PrimFloat.is_nan (f xh) = false -> PrimFloat.leb nzero (f xh) = true) /\
+                (v = xl \/ v = xh \/ v = b0 \/ v = b1 \/ v = clip x0 b0 b1).
+Proof. exact binary64_sign_invariant. Qed.
+Theorem C17_binary64_nan_iff_not_converged : forall (f df : PrimFloat.float -> PrimFloat.float) (x0 b0 b1 : PrimFloat.float) (n : nat)
+    (xt rt : PrimFloat.float) x cv it Fv dxv w,
+  @rtsafe PrimFloat.float NumF f df x0 b0 b1 n xt rt = Res x cv it Fv dxv w -> (x <> None <-> cv = true) /\ (cv = true <-> w = Converged).
+Proof. exact binary64_nan_iff_not_converged. Qed.
+(* NOT PROVED (false of the binary64 model): "every iterate and the result lie in [min b0 b1, max b0 b1]" (C17_bracket_invariant /
+   C17_result_in_bracket over R).  The rounded range test can accept a Newton step whose rounded iterate is outside: f = s x - 1e-30
+   on [0,1] (root 6e-31 inside), guess 0.1172...: (a) with x_tol = 0.25 the run CONVERGES on -1.39e-17 < 0; (b) with the default
+   settings the first iterate, and the bracket end xl, become negative (later iterates return).  Reproduced on rtsafe_ executed op by
+   op (jax.disable_jit); not reproduced under XLA compilation on CPU, which fuses the multiply-subtract of the range test (finding F7f). *)
+Theorem C17_binary64_result_in_bracket_refuted :
+  PrimFloat.ltb (feval ovs_f nzero) nzero = true /\ PrimFloat.ltb nzero (feval ovs_f f_one) = true /\
+  @nltb PrimFloat.float NumF (nmul (nsign (feval ovs_f nzero)) (nsign (feval ovs_f f_one))) nzero = true /\
+  match @rtsafe PrimFloat.float NumF (feval ovs_f) (fdiff ovs_f) ovs_x0 nzero f_one 50 x_tol_quarter nzero with
+  | Res (Some v) true _ _ _ Converged => PrimFloat.ltb v nzero
+  | _ => false
+  end = true.
+Proof. exact binary64_result_outside_bracket_witness. Qed.
+Theorem C17_binary64_iterate_in_bracket_refuted :
+  match init (feval ovs_f) (fdiff ovs_f) ovs_x0 nzero f_one nzero with
+  | Some c0 => let c1 := body (fun x => (feval ovs_f x, fdiff ovs_f x)) x_tol_default nzero c0 in
+               andb (andb (PrimFloat.eqb (c_xl c0) nzero) (PrimFloat.eqb (c_xh c0) f_one))
+                    (andb (PrimFloat.ltb (c_root c1) nzero) (PrimFloat.ltb (c_xl c1) nzero))
+  | None => false
+  end = true.
+Proof. exact binary64_iterate_outside_bracket_witness. Qed.
+
 (* non-vacuity: a bracketed run of the real model that converges (f = x - 1/2 on [0,1], guess 0, x_tol = 1: one Newton step) *)
 Example C17_nonvacuous : exists v it F dx,
   rtsafe (fun x => x - 1 / 2) (fun _ => 1) 0 0 1 1 1 0 = Res (Some v) true it F dx Converged /\ (0 - 1 / 2) * (1 - 1 / 2) < 0.
@@ -133,3 +229,5 @@ Print Assumptions C17_converged_reason.
 Print Assumptions C17_root_in_final_bracket.
 Print Assumptions C17_cap_refuted.
 Print Assumptions C17_ift.
+Print Assumptions C17_find_root_derivative.
+Print Assumptions C17_binary64_sign_invariant.
